@@ -3,11 +3,12 @@ import Optyx.Drive.Core
 import Optyx.Drive.LP
 import Optyx.Drive.Scipy
 import Optyx.Drive.Analysis
+import Optyx.Drive.Jac
 
 namespace Optyx.Drive
 
 def handlers : List (String → List Sexp → Option String) :=
-  [handleCore, LPNs.handleLP, LPNs.handleScipy, handleAnalysis]
+  [handleCore, LPNs.handleLP, LPNs.handleScipy, AnalysisNs.handleAnalysis, JacNs.handleJac]
 
 def dispatch (line : String) : String :=
   match Sexp.parseLine line with
